@@ -4,8 +4,12 @@
 flavour-space evolution matrix are 1 for every active input parton (momentum); at N = 1 (singlet
 skipped) the rows q - qbar reproduce q - qbar of the input (valence numbers) and, polarised, the
 non-singlet plus combinations T3, T8 are unchanged (axial charges).
-(ii) x space, no stubs: real eko.solve on 25-30 point log-lin grids, applied to the Les Houches
-toy PDFs; momentum and valence integrals of the interpolant before and after evolution agree to 1 %.
+(ii) x space, no stubs: real eko.solve on 25-30 point log-lin grids; the Les Houches toy PDFs are evolved
+through ekobox.apply.apply_grids (and apply_pdf with an lhapdf-like toy), which must agree with the plain
+contraction of the stored operator; momentum and valence integrals of the interpolant before and after
+evolution agree to 1 %.
+Momentum is summed for every input parton (also heavy quarks not yet active: intrinsic matching entries);
+axial charges T3, T8, T15, T24; QED with fixed and running alpha_em; scale variations; exact inversion.
 """
 
 import numpy as np
@@ -18,7 +22,8 @@ LEVEL = "exploration"
 TECHNIQUE = "exhaustive enumeration of (order, method, path, scale ratio, kind) through the real runner: exact Mellin-moment sum rules + un-stubbed x-space solves applied to toy PDFs"
 LEVEL_TEXT = (
     "the full product order 1-3 x 8 methods x fixed/up/down paths x scale ratios x unpolarised/polarised (+QED) is solved at the "
-    "moment seam and the N=2 / N=1 sum rules checked exactly; a handful of real x-space solves confirm the statement as written (1 %)"
+    "moment seam and the N=2 / N=1 sum rules checked exactly (all input partons, T3/T8/T15/T24, running alpha_em, scale variations, exact inversion); "
+    "a handful of real x-space solves, applied through ekobox.apply.apply_grids / apply_pdf, confirm the statement as written (1 %)"
 )
 LEVEL_NOTE = "moment seam removes inversion/interpolation error; x-space part limited to a few cards (interpreted mode cost); toy PDFs fixed (Les Houches)"
 FLOOR_NONTRIVIAL = 100
@@ -36,6 +41,14 @@ PATHS = {
     "down54": ([10.0, 5], [3.0, 4]),
 }
 FACTORS = [0.5, 2.0, 10.0]  # applied to the target scale of ffns paths (ratio of scales)
+# non-singlet plus combinations whose first moments (axial charges) are conserved; a combination is checked when all
+# its flavours are active at both ends of the path
+AXIAL = {
+    "T3": {2: 1, 1: -1},
+    "T8": {2: 1, 1: 1, 3: -2},
+    "T15": {2: 1, 1: 1, 3: 1, 4: -3},
+    "T24": {2: 1, 1: 1, 3: 1, 4: 1, 5: -4},
+}
 
 
 def _cfg(case):
@@ -68,13 +81,20 @@ def _cfg(case):
         inversion=case.get("inversion", "expanded"),
         polarized=case.get("polarized", False),
     )
+    if case.get("sv"):
+        c.update(sv=case["sv"], xif=case["xif"])
+    if case.get("em_running"):
+        c.update(em_running=True)
     return c
+
+
+TOL_BEYOND_LO = {"momentum": 2e-6, "number": 2e-7, "axial": 6e-7}
 
 
 def _tol(order, what):
     if order[0] == 1 and order[1] == 0:
         return 1e-11
-    return 2e-6 if what == "momentum" else 1e-6
+    return TOL_BEYOND_LO[what]
 
 
 def evaluate_moment(case, res):
@@ -84,7 +104,13 @@ def evaluate_moment(case, res):
     where = f"path={case['path']} factor={case.get('factor')} order={cfg['order']} method={cfg['method']} pol={pol}"
     cls = f"order={cfg['order'][0]},{cfg['order'][1]}/pol={int(pol)}/{case['path'].rstrip('345')}"
     nf_in = cfg["init"][1]
-    active_in = [p for p in PID if (p == 21 or (p != 22 and abs(p) <= nf_in) or (p == 22 and qed))]
+    # every input parton, including the heavy quarks that are not active at the initial scale: on an upward path they
+    # enter through the intrinsic matching entries (A_HH, A_gH), elsewhere they are carried unchanged; either way the
+    # momentum they bring in has to come out again
+    active_in = [p for p in PID if (p != 22 or qed)]
+    sv_tag = f"/sv={cfg['sv']}" if cfg.get("sv") else ""
+    if cfg.get("em_running"):
+        sv_tag += "/aem-running"
     worst = {}
     # ---- N = 2: momentum (unpolarised only)
     if not pol:
@@ -94,9 +120,13 @@ def evaluate_moment(case, res):
         for p in active_in:
             i = PID.index(p)
             s = float(E[:, i].sum())
-            worst["max_mom_dev"] = max(worst.get("max_mom_dev", 0.0), abs(s - 1.0))
+            key = "max_mom_dev" if (p == 21 or abs(p) <= nf_in or p == 22) else "max_mom_dev_heavy_input"
+            if cfg["order"] == [1, 0]:
+                key += "_lo"
+            worst[key] = max(worst.get(key, 0.0), abs(s - 1.0))
             if not np.isfinite(s) or abs(s - 1.0) > _tol(cfg["order"], "momentum"):
-                res.fail(f"moment/N=2/momentum/{cls}", f"{where}: momentum carried by the products of input parton {p} is {s!r} (must be 1)")
+                heavy = "" if (p == 21 or p == 22 or abs(p) <= nf_in) else "/heavy-input"
+                res.fail(f"moment/N=2/momentum/{cls}{sv_tag}{heavy}", f"{where}: momentum carried by the products of input parton {p} is {s!r} (must be 1)")
                 break
     # ---- N = 1: quark numbers / axial charges (non-singlet rows)
     out = probe.moment_solve(dict(cfg, skip_singlet=True), [1.0])
@@ -111,14 +141,14 @@ def evaluate_moment(case, res):
             exp[iq], exp[iqb] = 1.0, -1.0
             # inputs that are heavy and inactive at the start are carried unchanged: covered by exp as well
             dev = float(np.abs(row - exp).max())
-            worst["max_val_dev"] = max(worst.get("max_val_dev", 0.0), dev)
+            key = "max_val_dev" + ("_lo" if cfg["order"] == [1, 0] else "")
+            worst[key] = max(worst.get(key, 0.0), dev)
             if not np.isfinite(dev) or dev > _tol(cfg["order"], "number"):
-                res.fail(f"moment/N=1/valence/{cls}", f"{where}: valence number of flavour {q}: row (q - qbar) = {np.round(row, 8).tolist()}")
+                res.fail(f"moment/N=1/valence/{cls}{sv_tag}", f"{where}: valence number of flavour {q}: row (q - qbar) = {np.round(row, 8).tolist()}")
                 break
     else:
         nfl = min(nf_in, nf_out)
-        combos = {"T3": {2: 1, 1: -1}, "T8": {2: 1, 1: 1, 3: -2}}
-        for name, comb in combos.items():
+        for name, comb in AXIAL.items():
             if max(comb) > nfl:
                 continue
             row = np.zeros(14)
@@ -130,9 +160,10 @@ def evaluate_moment(case, res):
             # the singlet part of each q+ is skipped (zero) on both sides of the difference; the expectation has to
             # be projected the same way: subtract the flavour average
             dev = float(np.abs((row - exp)[[PID.index(p) for p in PID if p not in (21, 22)]]).max())
-            worst["max_axial_dev"] = max(worst.get("max_axial_dev", 0.0), dev)
-            if not np.isfinite(dev) or dev > _tol(cfg["order"], "number"):
-                res.fail(f"moment/N=1/axial-{name}/{cls}", f"{where}: first moment of {name} not conserved: row = {np.round(row, 8).tolist()}")
+            key = "max_axial_dev" + ("_lo" if cfg["order"] == [1, 0] else "")
+            worst[key] = max(worst.get(key, 0.0), dev)
+            if not np.isfinite(dev) or dev > _tol(cfg["order"], "axial"):
+                res.fail(f"moment/N=1/axial-{name}/{cls}{sv_tag}", f"{where}: first moment of {name} not conserved: row = {np.round(row, 8).tolist()}")
     res.info = worst
     res.outcome = f"moment:{case['path'].rstrip('345')}:pol={int(pol)}"
 
@@ -200,6 +231,79 @@ def _weights(xgrid, degree):
     return W, V
 
 
+class _ToyLHA:
+    """lhapdf-like object (xfxQ2 / hasFlavor) over a toy set given as x f(x) in flavour-basis order."""
+
+    def __init__(self, xf):
+        self.xf = xf
+        self.calls = 0
+
+    def hasFlavor(self, pid):
+        return pid in (21, 1, -1, 2, -2, 3, -3)
+
+    def xfxQ2(self, pid, x, q2):
+        self.calls += 1
+        return float(self.xf(np.array([x]))[PID.index(pid), 0])
+
+
+def _apply(path, xgrid, f0, toy, cfg, res, where, tagc):
+    """Evolve the input through ekobox.apply (the observation point of the property): apply_grids with two replicas
+    and apply_pdf with an lhapdf-like toy; both must agree with the plain contraction of the stored operator.
+
+    Returns (stored operator, evolved grid of replica 0 from apply_grids)."""
+    from eko.io.struct import EKO
+    from ekobox import apply as ekapply
+
+    # second replica: a different, flavour-dependent rescaling and a tilt in x, so that a wrong replica / flavour / grid
+    # axis cannot go unnoticed
+    f0b = f0 * (1.0 + 0.1 * np.arange(len(PID)))[:, None] * (1.0 + np.asarray(xgrid))[None, :]
+    inp = np.stack([f0, f0b])
+    try:
+        with EKO.read(path) as e:
+            ops = {ep: (op.operator.copy(), None if op.error is None else op.error.copy()) for ep, op in e.items()}
+            grids, errs = ekapply.apply_grids(e, inp)
+            pdfs, _perr = ekapply.apply_pdf(e, _ToyLHA(toy))
+            mu20 = float(e.mu20)
+    except Exception as e:  # noqa
+        import traceback
+
+        tb = traceback.extract_tb(e.__traceback__)
+        res.fail(f"xspace/apply/crash/{type(e).__name__}@{tb[-1].name if tb else '?'}", f"{where}: ekobox.apply raised {type(e).__name__}: {str(e)[:200]}")
+        return None, None
+    (ep, (op, err)), = ops.items()
+    target = cfg["mugrid"][0]
+    if list(grids) != [ep] or list(pdfs) != [ep] or abs(ep[0] - target[0] ** 2) > 1e-9 * target[0] ** 2 or ep[1] != target[1] or abs(mu20 - cfg["init"][0] ** 2) > 1e-9 * mu20:
+        res.fail(f"xspace/apply_grids/evolution-points/{tagc}", f"{where}: apply_grids returned {list(grids)}, apply_pdf {list(pdfs)}, archive holds {ep}, card asks {target}, mu20={mu20}")
+        return op, None
+    ref = np.einsum("ajbk,rbk->raj", op, inp)
+    g = np.asarray(grids[ep])
+    scale = np.abs(ref).max(axis=(1, 2))
+    if g.shape != ref.shape:
+        res.fail(f"xspace/apply_grids/shape/{tagc}", f"{where}: apply_grids output shape {g.shape}, expected {ref.shape}")
+        return op, None
+    dev = float((np.abs(g - ref).max(axis=(1, 2)) / scale).max())
+    res.info["max_apply_grids_contraction_dev"] = dev
+    if not np.isfinite(dev) or dev > 1e-12:
+        res.fail(f"xspace/apply_grids/contraction/{tagc}", f"{where}: apply_grids differs from the contraction sum_bk O[a,j,b,k] f[r,b,k] by {dev:.3e} (relative, worst replica)")
+    if err is not None:
+        eref = np.einsum("ajbk,rbk->raj", err, inp)
+        ge = np.asarray(errs.get(ep)) if ep in errs else None
+        edev = float(np.abs(ge - eref).max() / max(np.abs(eref).max(), 1e-300)) if ge is not None and ge.shape == eref.shape else float("inf")
+        res.info["max_apply_grids_error_contraction_dev"] = edev
+        if not np.isfinite(edev) or edev > 1e-12:
+            res.fail(f"xspace/apply_grids/error-contraction/{tagc}", f"{where}: integration-error grids of apply_grids differ from the contraction of the stored error tensor by {edev:.3e}")
+    # apply_pdf: input sampled as xf(x)/x on the archive's grid, output labelled by pid
+    try:
+        gp = np.array([np.asarray(pdfs[ep][pid]) for pid in PID])
+        pdev = float(np.abs(gp - ref[0]).max() / scale[0]) if gp.shape == ref[0].shape else float("inf")
+    except KeyError:
+        pdev = float("inf")
+    res.info["max_apply_pdf_dev"] = pdev
+    if not np.isfinite(pdev) or pdev > 1e-12:
+        res.fail(f"xspace/apply_pdf/convention/{tagc}", f"{where}: apply_pdf (input xf(x)/x from an lhapdf-like object, flavour basis) differs from the contraction with f(x) by {pdev:.3e}")
+    return op, g[0]
+
+
 def evaluate_xspace(case, res):
     from eko.interpolation import lambertgrid
 
@@ -210,13 +314,27 @@ def evaluate_xspace(case, res):
     cfg.update(xgrid=xgrid[::-1] if case.get("reversed_grid") else xgrid, degree=case["degree"], cores=case.get("cores", 1))
     pol = cfg["polarized"]
     where = f"path={case['path']} order={cfg['order']} method={cfg['method']} pol={pol} grid={n} degree={case['degree']}"
-    ops = cards.solve_ops(cfg, tag="c05x")
-    (ep, (op, err)), = ops.items()
+    tagc = f"order={cfg['order'][0]}/{case['path'].rstrip('345')}"
     x = np.array(xgrid)
-    f0 = (_toy_pol(x) if pol else _toy_xf(x)) / x
-    f1 = np.einsum("ajbk,bk->aj", op, f0)
+    toy = _toy_pol if pol else _toy_xf
+    f0 = toy(x) / x
+    res.info = {}
+    path = cards.scratch_path("c05x")
+    try:
+        cards.solve(cfg, path)
+        op, f1 = _apply(path, xgrid, f0, toy, cfg, res, where, tagc)
+    finally:
+        try:
+            path.unlink()
+        except FileNotFoundError:
+            pass
+    if op is None:
+        return
+    if f1 is None:
+        # the sum rules are still decided on the stored operator
+        f1 = np.einsum("ajbk,bk->aj", op, f0)
     W, V = _weights(xgrid, case["degree"])
-    info = {}
+    info = res.info
     if not pol:
         m0 = float((f0 @ W).sum())
         m1 = float((f1 @ W).sum())
@@ -231,7 +349,10 @@ def evaluate_xspace(case, res):
             if not np.isfinite(v1) or abs(v1 - v0) > 0.01 * scale:
                 res.fail(f"xspace/valence/order={cfg['order'][0]}/{case['path'].rstrip('345')}", f"{where}: valence number of flavour {q}: {v0:.6f} -> {v1:.6f}")
     else:
-        for name, comb in {"T3": {2: 1, 1: -1}, "T8": {2: 1, 1: 1, 3: -2}}.items():
+        nfl = min(cfg["init"][1], cfg["mugrid"][0][1])
+        for name, comb in AXIAL.items():
+            if max(comb) > nfl:
+                continue
             c0 = sum(w * float((f0[PID.index(q)] + f0[PID.index(-q)]) @ V) for q, w in comb.items())
             c1 = sum(w * float((f1[PID.index(q)] + f1[PID.index(-q)]) @ V) for q, w in comb.items())
             info["max_rel_axial_x"] = max(info.get("max_rel_axial_x", 0.0), abs(c1 - c0) / max(abs(c0), 1.0))
@@ -267,8 +388,14 @@ def evaluate(case):
         else:
             evaluate_xspace(case, res)
     except (NotImplementedError, ValueError) as e:
+        # every card of this lattice (QCD order 1-3 unpolarised/polarised space-like, QED with iterate-exact) is a supported
+        # one: a refusal (or a ValueError out of a library call) leaves the sum rule undecided and is reported
+        import traceback
+
+        tb = traceback.extract_tb(e.__traceback__)
         res.outcome = f"refused:{str(e)[:50]}"
         res.nontrivial = False
+        res.fail(f"solve/refused/{type(e).__name__}@{tb[-1].name if tb else '?'}/{case['seam']}", f"{case}: supported card not solved: {type(e).__name__}: {str(e)[:200]}")
     except Exception as e:  # noqa
         import traceback
 
@@ -276,7 +403,7 @@ def evaluate(case):
     return res
 
 
-def run(ctx):
+def moment_cases(thorough):
     cases = []
     orders = [[1, 0], [2, 0], [3, 0]]
     for pol in (False, True):
@@ -287,20 +414,54 @@ def run(ctx):
                         for f in FACTORS:
                             cases.append(dict(seam="s2", order=order, method=method, path=path, factor=f, polarized=pol))
                     else:
-                        if not ctx.thorough() and method in ("perturbative-exact", "decompose-expanded", "iterate-expanded") and order[0] == 3:
+                        if not thorough and method in ("perturbative-exact", "decompose-expanded", "iterate-expanded") and order[0] == 3:
                             continue
                         cases.append(dict(seam="s2", order=order, method=method, path=path, polarized=pol))
-    for order in ([1, 1], [2, 1], [2, 2]):
-        for path in ("ffns4", "up45", "down43"):
-            cases.append(dict(seam="s2", order=order, method="iterate-exact", path=path, factor=2.0))
-    for path in ("down43", "down54"):
+    for running in (False, True):
+        for order in ([1, 1], [2, 1], [2, 2]):
+            for path in ("ffns4", "up45", "down43"):
+                c = dict(seam="s2", order=order, method="iterate-exact", path=path, factor=2.0)
+                if running:
+                    c["em_running"] = True
+                cases.append(c)
+    for pol in (False, True):
+        for path in ("down43", "down54"):
+            for order in ([2, 0], [3, 0]):
+                c = dict(seam="s2", order=order, method="truncated", path=path, inversion="exact")
+                if pol:
+                    c["polarized"] = True
+                cases.append(c)
+    # scale variations: the anomalous dimensions / the operator are modified by terms proportional to ln(xif^2), which
+    # must respect the same sum rules
+    sv_paths = ["ffns4", "up45", "down54"] + (["ffns3", "up34", "up35", "down43"] if thorough else [])
+    sv_methods = ["iterate-exact", "truncated"] if thorough else ["iterate-exact"]
+    for pol in (False, True):
         for order in ([2, 0], [3, 0]):
-            cases.append(dict(seam="s2", order=order, method="truncated", path=path, inversion="exact"))
+            for path in sv_paths:
+                for sv in ("exponentiated", "expanded"):
+                    for xif in (0.5, 2.0):
+                        for method in sv_methods:
+                            if pol and not thorough and not (path == "up45" and xif == 2.0):
+                                continue
+                            c = dict(seam="s2", order=order, method=method, path=path, factor=2.0, sv=sv, xif=xif)
+                            if pol:
+                                c["polarized"] = True
+                            cfg = _cfg(c)
+                            if xif * min(cfg["init"][0], cfg["mugrid"][0][0]) < 1.0:
+                                continue  # the varied scale would drop below 1 GeV: not in the perturbative range
+                            cases.append(c)
+    return cases
+
+
+def run(ctx):
+    cases = moment_cases(ctx.thorough())
     # x space
     xs = [
         dict(order=[1, 0], method="iterate-exact", path="up45", npoints=25, degree=3),
         dict(order=[2, 0], method="truncated", path="ffns4", factor=2.0, npoints=25, degree=3),
         dict(order=[1, 0], method="truncated", path="ffns4", factor=2.0, npoints=25, degree=3, reversed_grid=True),
+        # the polarised clause as written (axial charges of the evolved toy set), also in the quick tier
+        dict(order=[2, 0], method="truncated", path="ffns4", factor=2.0, npoints=25, degree=3, polarized=True),
     ]
     if ctx.thorough():
         xs += [
@@ -315,12 +476,16 @@ def run(ctx):
     ctx.run_cases(xcases + cases, evaluate, chunksize=1)
     ctx.rule = (
         "moment seam: unpolarised and polarised x order 1-3 x 8 methods x 8 paths (fixed nf 3-5 with scale ratios 0.5/2/10, up 3->4, 3->5, 4->5, "
-        "down 4->3, 5->4), QED (1,1),(2,1),(2,2), exact inversion; x space: real solves on 25-40 point lambert grids (degree 3-4) applied to the "
-        "Les Houches toy PDFs; non-trivial = solved"
+        "down 4->3, 5->4), momentum summed for every input parton (also the heavy quarks not yet active), axial charges T3, T8, T15, T24; QED (1,1),(2,1),(2,2) "
+        "with fixed and running alpha_em; exact inversion unpolarised and polarised; scale variations (exponentiated/expanded, xif 0.5 and 2) at NLO/NNLO; "
+        "x space: real solves on 25-40 point lambert grids (degree 3-4), the Les Houches toy PDFs evolved through ekobox.apply.apply_grids (2 replicas) and "
+        "apply_pdf (lhapdf-like toy), both compared with the contraction of the stored operator; non-trivial = solved"
     )
     ctx.extra["traces_validated_against_impl"] = len(xcases)
     ctx.assumptions += [
         "probe conformance: for every x-space card the N = 2, 3 moments of the evolved toy PDFs agree with the moment-probe prediction to 3e-2 (the accuracy of a 25-point grid at N=2 is 4e-3..8e-3; a transposition or a wrong contour gives O(1))",
-        "moment-seam tolerances: 1e-11 at LO; 2e-6 (momentum) and 1e-6 (numbers) beyond, the accuracy of the parametrised NLO/NNLO anomalous dimensions and matching elements",
+        "moment-seam tolerances: 1e-11 at LO; beyond LO 2e-6 (momentum), 2e-7 (valence numbers), 6e-7 (axial charges): the accuracy of the parametrised NLO/NNLO anomalous dimensions and matching elements (measured maxima in the evidence, >= 10x head-room)",
+        "ekobox.apply: apply_grids / apply_pdf must reproduce sum_bk O[a,j,b,k] f[r,b,k] to 1e-12 (pure contraction, measured 0 .. 1e-15)",
+        "no card of this lattice may be refused: a NotImplementedError/ValueError is reported (solve/refused/...)",
         "x-space integrals are those of the interpolant on [1e-5, 1], the same before and after evolution",
     ]
